@@ -143,6 +143,10 @@ func (w *World) verifyFunction(fn *ssa.Function, fc *FuncContract) (res *FuncRes
 		st.Set("$it.next", entry.Get("$it.next", "Int"))
 		st.Set("$it.stopped", entry.Get("$it.stopped", "Bool"))
 	}
+	// ghost logs have a non-negative length
+	for _, g := range []string{"$fsw.n", "$out.n", "$warn.n", "$pf.n"} {
+		enc.assume(Le(IntLit(0), entry.Get(g, "Int")), "ghost log length is non-negative")
+	}
 	// global facts (constant package variables)
 	fr.assumeGlobals(entry)
 	if fn.Name() == "init" && fn.Pkg != nil {
@@ -204,6 +208,22 @@ func (w *World) verifyFunction(fn *ssa.Function, fc *FuncContract) (res *FuncRes
 		}
 	}
 	for i, en := range fc.Ensures {
+		if fc.SplitExits && len(fr.exits) > 1 {
+			for xi, ex := range fr.exits {
+				px := &Env{w: w, vars: map[string]TV{}, state: ex.state, old: entry, scope: fc.Scope, where: en.Where()}
+				for n, tv := range fr.paramTV {
+					px.vars[n] = tv
+				}
+				for ri, rn := range fc.Results {
+					if ri < nres {
+						px.vars[rn] = TV{ex.results[ri], fn.Signature.Results().At(ri).Type()}
+					}
+				}
+				t := fr.safeTr(px, en)
+				enc.oblige(fmt.Sprintf("ensures%d@return%d", i+1, xi+1), en.Where(), en.Text, en.Tags, ex.pc, t)
+			}
+			continue
+		}
 		post.where = en.Where()
 		t := fr.safeTr(post, en)
 		enc.oblige(fmt.Sprintf("ensures%d", i+1), en.Where(), en.Text, en.Tags, anyRet, t)
@@ -271,7 +291,7 @@ func (fr *Frame) assumeGlobals(st *State) {
 func (fr *Frame) frameObligations(fc *FuncContract, pre *Env, entry, final *State, pc *Term) {
 	enc := fr.enc
 	w := enc.w
-	if final.epoch != entry.epoch {
+	if final.epoch != entry.epoch && !fc.AssignsAny {
 		// some callee without a frame was called: nothing can be proved about the frame
 		enc.oblige("frame", fc.File, "assigns clause (a callee without contract was called: frame undecidable)", nil, pc, tFalse)
 		return
@@ -316,6 +336,9 @@ func (fr *Frame) frameObligations(fc *FuncContract, pre *Env, entry, final *Stat
 	cnt0 := entry.Get("$cnt", "Int")
 	for _, name := range sortedKeys(final.m) {
 		if name == "$cnt" || wholeOK[name] {
+			continue
+		}
+		if fc.AssignsAny && !strings.HasPrefix(name, "$") {
 			continue
 		}
 		so := w.heapSorts[name]
